@@ -124,9 +124,19 @@ func (f *FS) WriteFileRaw(p string, data []byte) {
 	f.mkdirAllRaw(filepath.Dir(p))
 	f.nodes[p] = &inode{ino: f.nextIno, data: append([]byte(nil), data...)}
 	f.nextIno++
+	if f.Tracing {
+		f.trace(Call{Op: "rawwrite", Path: p, Data: append([]byte(nil), data...), Res: "ok"})
+	}
 }
 
-func (f *FS) RemoveRaw(p string) { delete(f.nodes, clean(p)) }
+// RemoveRaw removes a path on behalf of the harness (e.g. deleting index files between two
+// processes); it is traced so that the OS replay sees the same thing.
+func (f *FS) RemoveRaw(p string) {
+	delete(f.nodes, clean(p))
+	if f.Tracing {
+		f.trace(Call{Op: "remove", Path: clean(p), Res: "ok"})
+	}
+}
 
 func (f *FS) mkdirAllRaw(p string) {
 	p = clean(p)
@@ -553,7 +563,11 @@ func (fl *File) Stat() (os.FileInfo, error) {
 	point("fs:fstat")
 	fi := &fileInfo{name: filepath.Base(fl.name), size: int64(len(fl.n.data)), dir: fl.n.dir}
 	if fl.fs.Tracing {
-		fl.fs.trace(Call{Op: "fstat", H: fl.h, Res: fmt.Sprintf("%d %v ok", fi.size, fi.dir)})
+		if fi.dir {
+			fl.fs.trace(Call{Op: "fstat", H: fl.h, Res: "dir ok"})
+		} else {
+			fl.fs.trace(Call{Op: "fstat", H: fl.h, Res: fmt.Sprintf("%d %v ok", fi.size, fi.dir)})
+		}
 	}
 	return fi, nil
 }
